@@ -273,6 +273,12 @@ func evalConst(e ast.Expr, consts map[string]ast.Expr) (float64, error) {
 
 type target struct{ file, recv, fn string }
 
+// functions left out of the lock traces, with the reason
+var lockTraceSkip = map[string]string{
+	"OneConnection.InvStore": "writes InvDone under its documented precondition 'make sure c.Mutex is locked when calling it'; every call site is a shared access of the traces instead",
+	"NewConnection":          "constructor: the object is not yet visible to any other thread",
+}
+
 func main() {
 	targets := []target{
 		{"client/network/ver.go", "OneConnection", "HandleVersion"},
@@ -527,6 +533,38 @@ func main() {
 	fmt.Fprintf(&sb, "  %d\n\n", def)
 	nfacts += len(rows) + 1
 	sort.Strings(names)
+
+	// ---- lock traces of every function of the anchored files (locks.go)
+	var traces []*lockWalker
+	for _, rel := range []string{"tick.go", "ver.go", "addr.go", "invs.go", "hdrs.go", "data.go", "cblk.go", "trxs.go", "ping.go", "core.go"} {
+		f := files["client/network/"+rel]
+		if f == nil {
+			var err error
+			if f, err = vtrans.Parse("client/network/" + rel); err != nil {
+				die(err)
+			}
+		}
+		fset = f.Fset
+		for _, d := range f.AST.Decls {
+			fd, ok := d.(*ast.FuncDecl)
+			if !ok || fd.Body == nil {
+				continue
+			}
+			name := fd.Name.Name
+			if fd.Recv != nil && len(fd.Recv.List) == 1 {
+				t := show(fd.Recv.List[0].Type)
+				name = strings.TrimPrefix(t, "*") + "." + name
+			}
+			if lockTraceSkip[name] != "" {
+				continue
+			}
+			traces = append(traces, lockTraceOf(name, fd))
+		}
+	}
+	if len(traces) < 60 {
+		die(fmt.Errorf("lock traces: only %d functions found", len(traces)))
+	}
+	nfacts += writeLockTraces(&sb, traces)
 	sb.WriteString("end GocoinV.Gen.NetFacts\n")
 	out := vlib.Root() + "/lean/GocoinV/Gen/NetFacts.lean"
 	os.Remove(out)
